@@ -955,6 +955,26 @@ def _check_centre(ctx, b, fn, cen, fname, r_cen, oi):
                 for rb in f2.return_blocks():
                     rt |= f2.local_terms(0, (rb, f2.nstmts(rb)))
                 return bool(rt) and all(ok_node(m, depth + 1) for m in rt)
+            if cb is not None and cb.kind in ('Fn', 'AssocFn') and cb.arg_count == len(n[2]):
+                # a constructor that only assembles its arguments (`SO3State::new(0., 0., 0., 1.)`): instantiate its literal
+                f2 = ctx.fn(cb)
+                rt = set()
+                for rb in f2.return_blocks():
+                    rt |= f2.local_terms(0, (rb, f2.nstmts(rb)))
+                inst = []
+                for m in rt:
+                    if m[0] != 'agg':
+                        return False
+                    fields = []
+                    for (fname, ft) in m[3]:
+                        if not (ft and all(q[0] == 'param' and 1 <= q[1] <= len(n[2]) for q in ft)):
+                            return False
+                        sub = set()
+                        for q in ft:
+                            sub |= set(n[2][q[1] - 1])
+                        fields.append((fname, frozenset(sub)))
+                    inst.append((m[0], m[1], m[2], tuple(fields)))
+                return bool(inst) and all(ok_node(m, depth + 1) for m in inst)
         return False
     if not cen:
         r_cen.inst('%s: stored centre %s.0 not found' % (b.path, fname), ok=False, site=b.loc(0))
